@@ -5,4 +5,5 @@ func init() { register("C10", checkC10) }
 func checkC10(c *Check) {
 	c.checkOwnership("C10.1 ownership")
 	c.checkSpawnJoin("C10.4 spawn-join")
+	c.readerHandoff()
 }
